@@ -123,10 +123,8 @@ private:
     static PyTreeTypeRegistry *Singleton();
 
     template <bool NoneIsLeaf>
-    static void RegisterImpl(const py::object &cls,
-                             const py::function &flatten_func,
-                             const py::function &unflatten_func,
-                             const py::object &path_entry_type,
+    static bool RegisterImpl(const py::object &cls,
+                             const RegistrationPtr &registration,
                              const std::string &registry_namespace);
 
     template <bool NoneIsLeaf>
